@@ -225,6 +225,15 @@ class Context:
         return ctx
 
 
+def _join_element_names(element_names: list[str]) -> str:
+    # ":" is the separator: escape it (and the escape character) inside
+    # the names, so that different lists of names never produce the same
+    # string (a quoted name may well contain a ":").
+    return ":".join(
+        n.replace('\\', '\\\\').replace(':', '\\:') for n in element_names
+    )
+
+
 def _get_collection_type_id(
     coll_type: str,
     subtypes: list[uuid.UUID],
@@ -235,7 +244,7 @@ def _get_collection_type_id(
 
     string_id = f'{coll_type}\x00{":".join(map(str, subtypes))}'
     if element_names:
-        string_id += f'\x00{":".join(element_names)}'
+        string_id += f'\x00{_join_element_names(element_names)}'
     return uuidgen.uuid5(s_obj.TYPE_ID_NAMESPACE, string_id)
 
 
@@ -252,7 +261,7 @@ def _get_object_shape_id(
     parts = [coll_type]
     parts.append(":".join(map(str, subtypes)))
     if element_names:
-        parts.append(":".join(element_names))
+        parts.append(_join_element_names(element_names))
     if cardinalities:
         parts.append(":".join(chr(c._value_) for c in cardinalities))
     string_id = "\x00".join(parts)
